@@ -635,6 +635,7 @@ class C19(Prop):
     id = 'C19'
     driver = 'drv_C19'
     model = 'C19'
+    search_scale = 1          # widened search: thorough volume (about 5 000 files) per further seed
     level_text = ('Machine-checked Coq theorems about a hand-written model of src/valid (must/should/could with "a throwing getter '
                   'fails the condition", the rule tables of validate.cpp in order, the loops of checks.cpp, the walk of File::validate): '
                   'soundness (a file that satisfies the documented hard rules gets no error; entity-wise: an error about an entity implies '
@@ -645,7 +646,10 @@ class C19(Prop):
     level_note = ('Trusted: Coq kernel, extraction, driver glue, the Python twin of ValidSpec.judge (cross-checked against the extracted '
                   'judge on every case).  Assumed: util::isSIUnit / isCompoundSIUnit / isScalable are parameters of model and '
                   'specification (unit algebra = C18); atomic SI units are SI units; ids are unique (C12); getters called outside the '
-                  'try block of a condition do not throw.')
+                  'try block of a condition do not throw.  Axioms: only the standard-library axioms of the reals that Flocq brings '
+                  '(binary64 ticks and sampling intervals).  While a defect is open the model mirrors it (Validator.tagUnits_variant / '
+                  'propUnit_variant = AsPinned): Properties_C19 then holds the refutation of the full statement for that variant next '
+                  'to the partial statement, and the full statement proved for the repaired variant.')
     technique = 'Coq proof over a hand-written validator model + correspondence on generated nix files with breach injection'
     nontrivial_rule = ('a case is a complete nix file (1-3 blocks, rank 1-3 arrays with set/sampled/range/alias/data-frame dimensions, '
                        'tags and multi-tags with units/extents/features, nested sources, nested sections with properties) built '
